@@ -138,6 +138,9 @@ func (m *Mon) OnLeg(n *node.Node, l *node.Leg) {
 		if m.Enabled["C07"] {
 			m.C07post(n, l)
 		}
+		if m.Enabled["C03"] {
+			m.C03post(n, l)
+		}
 		if m.Enabled["C15"] {
 			m.C15(n, l, false)
 		}
@@ -445,7 +448,58 @@ func (m *Mon) C02(n *node.Node, l *node.Leg) {
 		}
 	}
 	if node.IsTransferFunc(c.Func) {
-		return // judged by C01
+		// the exact move is judged by C01; here only the supply view: a transfer leg changes the
+		// total held on this shard by 0 (same shard), by -Σq (cross-shard sender leg) or by +Σq
+		// (delivery, refund, issuance by the system contract), per storage key
+		if l.Moves == nil || l.LogicalDst == nil {
+			return
+		}
+		net := map[string]*big.Int{}
+		for k, d := range deltas {
+			if net[k.Key] == nil {
+				net[k.Key] = new(big.Int)
+			}
+			net[k.Key].Add(net[k.Key], d)
+		}
+		want := map[string]*big.Int{}
+		sign := 0
+		switch {
+		case l.Msg != nil || isSys(c.Caller):
+			sign = 1
+		case world.ComputeShard(n.W.NumShards, l.LogicalDst) != l.Shard:
+			sign = -1
+		}
+		for _, mv := range l.Moves {
+			if want[mv.Key()] == nil {
+				want[mv.Key()] = new(big.Int)
+			}
+			if sign > 0 {
+				want[mv.Key()].Add(want[mv.Key()], mv.Qty)
+			} else if sign < 0 {
+				want[mv.Key()].Sub(want[mv.Key()], mv.Qty)
+			}
+		}
+		keys := map[string]bool{}
+		for k := range net {
+			keys[k] = true
+		}
+		for k := range want {
+			keys[k] = true
+		}
+		for k := range keys {
+			a, b := net[k], want[k]
+			if a == nil {
+				a = new(big.Int)
+			}
+			if b == nil {
+				b = new(big.Int)
+			}
+			if a.Cmp(b) != 0 {
+				m.viol("C02", "transfer-changes-supply:"+c.Func+":"+sideName(l), fmt.Sprintf("the transfer leg changed the total of key %q held on this shard by %s, the requested move accounts for %s", k, a, b), l)
+			}
+		}
+		m.R.Cover("C02/transfer-leg-supply-checked:" + c.Func)
+		return
 	}
 	exp := map[akey]*big.Int{}
 	caller := string(c.Caller)
@@ -475,7 +529,9 @@ func (m *Mon) C02(n *node.Node, l *node.Leg) {
 			}
 		}
 		if hit == nil {
-			m.viol("C02", "create-no-entry", "ESDTNFTCreate succeeded without creating an entry", l)
+			if bigOf(a[1]).Sign() > 0 {
+				m.viol("C02", "create-no-entry", "ESDTNFTCreate succeeded without creating an entry", l)
+			}
 		} else {
 			addDelta(exp, *hit, bigOf(a[1]))
 		}
@@ -591,6 +647,48 @@ func (m *Mon) C03(n *node.Node, l *node.Leg) {
 				m.viol("C03", "username-changed:"+c.Func, "user name changed by a function other than SetUserName", l)
 			}
 		}
+	}
+}
+
+// C03post: after a role operation of the system contract (set, unset, hand-over) the role list the
+// account actually holds for that token equals what the system contract's calls add up to.
+func (m *Mon) C03post(n *node.Node, l *node.Leg) {
+	c := l.Call
+	if !(c.Func == FSetRole || c.Func == FUnSetRole || c.Func == FHandOver) || len(c.Args) < 1 {
+		return
+	}
+	if !isSys(c.Caller) && !isHandOverDelivery(l) {
+		return
+	}
+	accs := [][]byte{c.Recipient}
+	if c.Func == FHandOver && isSys(c.Caller) && len(c.Args) == 2 && world.ComputeShard(n.W.NumShards, c.Args[1]) == l.Shard {
+		accs = append(accs, c.Args[1])
+	}
+	for _, acc := range accs {
+		a := n.W.AccountIfExists(acc)
+		held := map[string]bool{}
+		if a != nil {
+			rs, err := refcodec.DecodeRoles(a.Storage[node.RolePrefix+string(c.Args[0])])
+			if err != nil {
+				m.viol("C03", "role-list-undecodable", "role list does not decode after a role operation", l)
+				continue
+			}
+			for _, r := range rs {
+				held[string(r)] = true
+			}
+		}
+		want := m.S.Roles[rkey{string(acc), string(c.Args[0])}]
+		for r := range held {
+			if !want[r] {
+				m.viol("C03", "role-held-but-revoked:"+c.Func, fmt.Sprintf("after %s the account %s holds role %q for token %q which the system contract's calls do not grant (or have revoked)", c.Func, node.ShortAddr(acc), r, c.Args[0]), l)
+			}
+		}
+		for r, ok := range want {
+			if ok && !held[r] {
+				m.viol("C03", "role-granted-but-missing:"+c.Func, fmt.Sprintf("after %s the account %s lacks role %q for token %q which the system contract granted", c.Func, node.ShortAddr(acc), r, c.Args[0]), l)
+			}
+		}
+		m.R.Cover("C03/role-state-compared:" + c.Func)
 	}
 }
 
@@ -876,7 +974,7 @@ func (m *Mon) C07(n *node.Node, l *node.Leg) {
 		if st := counterInStorage(n.W, c.Caller, a[0]); st != got {
 			m.viol("C07", "create-counter-not-stored", fmt.Sprintf("stored counter %d differs from returned nonce %d", st, got), l)
 		}
-		if t, ok := liveEntry(n.W, c.Caller, node.StorageKey(a[0], got)); !ok || (t.Meta == nil || t.Meta.Nonce != got) {
+		if t, ok := liveEntry(n.W, c.Caller, node.StorageKey(a[0], got)); bigOf(a[1]).Sign() > 0 && (!ok || (t.Meta == nil || t.Meta.Nonce != got)) {
 			m.viol("C07", "create-entry-missing", fmt.Sprintf("no entry with nonce %d at the creator after ESDTNFTCreate", got), l)
 		}
 		if _, inflight := m.S.InFlightH[tok]; inflight {
@@ -954,7 +1052,9 @@ func (m *Mon) C08(n *node.Node, l *node.Leg) {
 		key := node.StorageKey(a[0], nn)
 		t, ok := liveEntry(n.W, c.Caller, key)
 		if !ok || t.Meta == nil {
-			m.viol("C08", "create-no-metadata", "no metadata stored by ESDTNFTCreate under the successor nonce", l)
+			if bigOf(a[1]).Sign() > 0 {
+				m.viol("C08", "create-no-metadata", "no metadata stored by ESDTNFTCreate under the successor nonce", l)
+			}
 			return
 		}
 		given := bigOf(a[3])
